@@ -11,7 +11,7 @@
 (* "settle_late_stopping"} selects candidate repairs; {} is the pinned tree.    *)
 EXTENDS Integers, Sequences, FiniteSets, TLC
 
-CONSTANTS Script,      \* sequence of "start" / "stop"
+CONSTANTS Script,      \* sequence of "start" / "stop" / "endrep" (end_replication)
           NEvents,     \* events on the event list (times 1..NEvents, replication end beyond)
           Faulty,      \* set of event numbers whose handler raises (WARN_AND_PAUSE)
           Stoppers,    \* set of event numbers whose handler calls stop() (a command issued on the run thread)
@@ -20,11 +20,15 @@ CONSTANTS Script,      \* sequence of "start" / "stop"
 
 (* --algorithm SimThreads
 variables rs = "INITIALIZED", rep = "INITIALIZED", runflag = FALSE, fin = FALSE, flag = FALSE,
-          next = 1,             \* next event to execute
+          next = 1,             \* next event on the event list
+          cur = 0,              \* event popped by the run loop (0: the list was empty)
+          endsOK = 0,           \* accepted end_replication() calls
           res = <<>>,           \* results of the script's commands
           startsOK = 0, segments = 0,
           lateStop = FALSE,     \* history: the caller wrote STOPPING when the run loop could no longer see it
           staleStart = FALSE,   \* history: a start was admitted before the run thread cleared the previous wake-up
+          lateEnd = FALSE,      \* history: end_replication() wrote ENDING after the run thread had already written ENDED
+          staleEnd = FALSE,     \* history: end_replication() woke the run thread just before it cleared its wake-up flag
           wrote = FALSE,        \* the command in progress has written shared state
           afterStop = -1,       \* events executed since an accepted stop() wrote STOPPING (-1: no stop in force)
           ctimedout = FALSE, wtimedout = FALSE,   \* a second has passed since the caller's / the run thread's current spin wait began (time is global)
@@ -63,17 +67,21 @@ R0:
   runflag := TRUE; segments := segments + 1; AccB("w", "W", "runflag", TRUE);
 R1a:      \* while not self.is_stopping_or_stopped(): run_state == STARTING ?
   Acc("w", "R", "rs", rs);
-  if rs = "STARTING" then goto R_body; end if;
+  if rs = "STARTING" then      \* (the loop body follows at once: empty test and pop_first are not announced)
+    if next <= NEvents then cur := next; next := next + 1; else cur := 0; end if;
+    goto R_body;
+  end if;
 R1b:      \* run_state == STARTED ?
   Acc("w", "R", "rs", rs);
-  if rs # "STARTED" then goto W7; end if;
+  if rs # "STARTED" then goto W7;
+  elsif next <= NEvents then cur := next; next := next + 1;
+  else cur := 0; end if;
 R_body:
-  if next <= NEvents then
-    AccN("w", "exec", "event", next);
-    next := next + 1;
+  if cur # 0 then
+    AccN("w", "exec", "event", cur);
     afterStop := IF afterStop >= 0 THEN afterStop + 1 ELSE afterStop;
-    if (next - 1) \in Faulty then goto R_fault;
-    elsif (next - 1) \in Stoppers then goto H1a;
+    if cur \in Faulty then goto R_fault;
+    elsif cur \in Stoppers then goto H1a;
     else goto R1a; end if;
   else    \* nothing left within the bound (= the replication end): ENDING, STOPPING, return
     rep := "ENDING"; Acc("w", "W", "rep", "ENDING");
@@ -132,7 +140,7 @@ begin
 C_next:
   wrote := FALSE; ok := TRUE;
   Acc("c", "cmd", Script[i], "-");
-  if Script[i] = "start" then goto S1a; else goto P1a; end if;
+  if Script[i] = "start" then goto S1a; elsif Script[i] = "stop" then goto P1a; else goto E1; end if;
 S1a:    \* is_starting_or_running(): == STARTING ?
   Acc("c", "R", "rs", rs);
   if rs = "STARTING" then ok := FALSE; goto C_ret; end if;
@@ -209,6 +217,18 @@ P5c:
   rs := "ENDED"; Acc("c", "W", "rs", "ENDED"); goto C_ret;
 P5d:
   rs := "STOPPED"; Acc("c", "W", "rs", "STOPPED");
+E1:     \* end_replication(): is_initialized()
+  Acc("c", "R", "rs", rs);
+  if rs = "NOT_INITIALIZED" then ok := FALSE; goto C_ret; end if;
+E2:     \* ... and the replication has not ended yet
+  Acc("c", "R", "rep", rep);
+  if rep = "ENDED" then ok := FALSE; goto C_ret; end if;
+E3:
+  lateEnd := lateEnd \/ rep = "ENDED";
+  rep := "ENDING"; wrote := TRUE; Acc("c", "W", "rep", "ENDING");
+E4:     \* wake the run thread; then the clock is set to the end and the event list is cleared (not announced)
+  staleEnd := staleEnd \/ pc["w"] = "W_clear";
+  flag := TRUE; next := NEvents + 1; endsOK := endsOK + 1; Acc("c", "ev", "set", "-");
 C_ret:
   res := Append(res, IF ok THEN "ok" ELSE "DSOLError");
   Acc("c", "ret", Script[i], IF ok THEN "ok" ELSE "DSOLError");
@@ -217,8 +237,9 @@ C_ret:
 end process;
 end algorithm; *)
 \* BEGIN TRANSLATION
-VARIABLES pc, rs, rep, runflag, fin, flag, next, res, startsOK, segments, 
-          lateStop, staleStart, wrote, afterStop, ctimedout, wtimedout, last
+VARIABLES pc, rs, rep, runflag, fin, flag, next, cur, endsOK, res, startsOK, 
+          segments, lateStop, staleStart, lateEnd, staleEnd, wrote, afterStop, 
+          ctimedout, wtimedout, last
 
 (* define statement *)
 InRunLoop(p) == p \in {"R0", "R1a", "R1b", "R_body", "R_fault", "R_end1", "R_end2", "H1a", "H1b", "H3", "H4f", "H4s"}
@@ -228,9 +249,9 @@ WDone == pc["w"] = "Done"
 
 VARIABLES i, ok
 
-vars == << pc, rs, rep, runflag, fin, flag, next, res, startsOK, segments, 
-           lateStop, staleStart, wrote, afterStop, ctimedout, wtimedout, last, 
-           i, ok >>
+vars == << pc, rs, rep, runflag, fin, flag, next, cur, endsOK, res, startsOK, 
+           segments, lateStop, staleStart, lateEnd, staleEnd, wrote, 
+           afterStop, ctimedout, wtimedout, last, i, ok >>
 
 ProcSet == {"w"} \cup {"c"}
 
@@ -241,11 +262,15 @@ Init == (* Global variables *)
         /\ fin = FALSE
         /\ flag = FALSE
         /\ next = 1
+        /\ cur = 0
+        /\ endsOK = 0
         /\ res = <<>>
         /\ startsOK = 0
         /\ segments = 0
         /\ lateStop = FALSE
         /\ staleStart = FALSE
+        /\ lateEnd = FALSE
+        /\ staleEnd = FALSE
         /\ wrote = FALSE
         /\ afterStop = -1
         /\ ctimedout = FALSE
@@ -263,17 +288,19 @@ W_woke == /\ pc["w"] = "W_woke"
           /\ IF "clear_after_wait" \in Fixes
                 THEN /\ pc' = [pc EXCEPT !["w"] = "W_clear0"]
                 ELSE /\ pc' = [pc EXCEPT !["w"] = "W2"]
-          /\ UNCHANGED << rs, rep, runflag, fin, flag, next, res, startsOK, 
-                          segments, lateStop, staleStart, wrote, afterStop, 
-                          ctimedout, wtimedout, i, ok >>
+          /\ UNCHANGED << rs, rep, runflag, fin, flag, next, cur, endsOK, res, 
+                          startsOK, segments, lateStop, staleStart, lateEnd, 
+                          staleEnd, wrote, afterStop, ctimedout, wtimedout, i, 
+                          ok >>
 
 W_clear0 == /\ pc["w"] = "W_clear0"
             /\ flag' = FALSE
             /\ last' = [t |-> "w", k |-> "ev", v |-> "clear", x |-> "-"]
             /\ pc' = [pc EXCEPT !["w"] = "W2"]
-            /\ UNCHANGED << rs, rep, runflag, fin, next, res, startsOK, 
-                            segments, lateStop, staleStart, wrote, afterStop, 
-                            ctimedout, wtimedout, i, ok >>
+            /\ UNCHANGED << rs, rep, runflag, fin, next, cur, endsOK, res, 
+                            startsOK, segments, lateStop, staleStart, lateEnd, 
+                            staleEnd, wrote, afterStop, ctimedout, wtimedout, 
+                            i, ok >>
 
 W2 == /\ pc["w"] = "W2"
       /\ last' = [t |-> "w", k |-> "R", v |-> "fin", x |-> IF fin THEN "True" ELSE "False"]
@@ -282,107 +309,119 @@ W2 == /\ pc["w"] = "W2"
                        THEN /\ pc' = [pc EXCEPT !["w"] = "W_loop"]
                        ELSE /\ pc' = [pc EXCEPT !["w"] = "W_clear"]
             ELSE /\ pc' = [pc EXCEPT !["w"] = "W3"]
-      /\ UNCHANGED << rs, rep, runflag, fin, flag, next, res, startsOK, 
-                      segments, lateStop, staleStart, wrote, afterStop, 
-                      ctimedout, wtimedout, i, ok >>
+      /\ UNCHANGED << rs, rep, runflag, fin, flag, next, cur, endsOK, res, 
+                      startsOK, segments, lateStop, staleStart, lateEnd, 
+                      staleEnd, wrote, afterStop, ctimedout, wtimedout, i, ok >>
 
 W3 == /\ pc["w"] = "W3"
       /\ last' = [t |-> "w", k |-> "R", v |-> "rep", x |-> rep]
       /\ IF rep = "ENDING"
             THEN /\ pc' = [pc EXCEPT !["w"] = "W8"]
             ELSE /\ pc' = [pc EXCEPT !["w"] = "W5"]
-      /\ UNCHANGED << rs, rep, runflag, fin, flag, next, res, startsOK, 
-                      segments, lateStop, staleStart, wrote, afterStop, 
-                      ctimedout, wtimedout, i, ok >>
+      /\ UNCHANGED << rs, rep, runflag, fin, flag, next, cur, endsOK, res, 
+                      startsOK, segments, lateStop, staleStart, lateEnd, 
+                      staleEnd, wrote, afterStop, ctimedout, wtimedout, i, ok >>
 
 W5 == /\ pc["w"] = "W5"
       /\ rs' = "STARTED"
       /\ last' = [t |-> "w", k |-> "W", v |-> "rs", x |-> "STARTED"]
       /\ pc' = [pc EXCEPT !["w"] = "R0"]
-      /\ UNCHANGED << rep, runflag, fin, flag, next, res, startsOK, segments, 
-                      lateStop, staleStart, wrote, afterStop, ctimedout, 
-                      wtimedout, i, ok >>
+      /\ UNCHANGED << rep, runflag, fin, flag, next, cur, endsOK, res, 
+                      startsOK, segments, lateStop, staleStart, lateEnd, 
+                      staleEnd, wrote, afterStop, ctimedout, wtimedout, i, ok >>
 
 R0 == /\ pc["w"] = "R0"
       /\ runflag' = TRUE
       /\ segments' = segments + 1
       /\ last' = [t |-> "w", k |-> "W", v |-> "runflag", x |-> IF TRUE THEN "True" ELSE "False"]
       /\ pc' = [pc EXCEPT !["w"] = "R1a"]
-      /\ UNCHANGED << rs, rep, fin, flag, next, res, startsOK, lateStop, 
-                      staleStart, wrote, afterStop, ctimedout, wtimedout, i, 
-                      ok >>
+      /\ UNCHANGED << rs, rep, fin, flag, next, cur, endsOK, res, startsOK, 
+                      lateStop, staleStart, lateEnd, staleEnd, wrote, 
+                      afterStop, ctimedout, wtimedout, i, ok >>
 
 R1a == /\ pc["w"] = "R1a"
        /\ last' = [t |-> "w", k |-> "R", v |-> "rs", x |-> rs]
        /\ IF rs = "STARTING"
-             THEN /\ pc' = [pc EXCEPT !["w"] = "R_body"]
+             THEN /\ IF next <= NEvents
+                        THEN /\ cur' = next
+                             /\ next' = next + 1
+                        ELSE /\ cur' = 0
+                             /\ next' = next
+                  /\ pc' = [pc EXCEPT !["w"] = "R_body"]
              ELSE /\ pc' = [pc EXCEPT !["w"] = "R1b"]
-       /\ UNCHANGED << rs, rep, runflag, fin, flag, next, res, startsOK, 
-                       segments, lateStop, staleStart, wrote, afterStop, 
-                       ctimedout, wtimedout, i, ok >>
+                  /\ UNCHANGED << next, cur >>
+       /\ UNCHANGED << rs, rep, runflag, fin, flag, endsOK, res, startsOK, 
+                       segments, lateStop, staleStart, lateEnd, staleEnd, 
+                       wrote, afterStop, ctimedout, wtimedout, i, ok >>
 
 R1b == /\ pc["w"] = "R1b"
        /\ last' = [t |-> "w", k |-> "R", v |-> "rs", x |-> rs]
        /\ IF rs # "STARTED"
              THEN /\ pc' = [pc EXCEPT !["w"] = "W7"]
-             ELSE /\ pc' = [pc EXCEPT !["w"] = "R_body"]
-       /\ UNCHANGED << rs, rep, runflag, fin, flag, next, res, startsOK, 
-                       segments, lateStop, staleStart, wrote, afterStop, 
-                       ctimedout, wtimedout, i, ok >>
+                  /\ UNCHANGED << next, cur >>
+             ELSE /\ IF next <= NEvents
+                        THEN /\ cur' = next
+                             /\ next' = next + 1
+                        ELSE /\ cur' = 0
+                             /\ next' = next
+                  /\ pc' = [pc EXCEPT !["w"] = "R_body"]
+       /\ UNCHANGED << rs, rep, runflag, fin, flag, endsOK, res, startsOK, 
+                       segments, lateStop, staleStart, lateEnd, staleEnd, 
+                       wrote, afterStop, ctimedout, wtimedout, i, ok >>
 
 R_body == /\ pc["w"] = "R_body"
-          /\ IF next <= NEvents
-                THEN /\ last' = [t |-> "w", k |-> "exec", v |-> "event", x |-> ToString(next)]
-                     /\ next' = next + 1
+          /\ IF cur # 0
+                THEN /\ last' = [t |-> "w", k |-> "exec", v |-> "event", x |-> ToString(cur)]
                      /\ afterStop' = (IF afterStop >= 0 THEN afterStop + 1 ELSE afterStop)
-                     /\ IF (next' - 1) \in Faulty
+                     /\ IF cur \in Faulty
                            THEN /\ pc' = [pc EXCEPT !["w"] = "R_fault"]
-                           ELSE /\ IF (next' - 1) \in Stoppers
+                           ELSE /\ IF cur \in Stoppers
                                       THEN /\ pc' = [pc EXCEPT !["w"] = "H1a"]
                                       ELSE /\ pc' = [pc EXCEPT !["w"] = "R1a"]
                      /\ rep' = rep
                 ELSE /\ rep' = "ENDING"
                      /\ last' = [t |-> "w", k |-> "W", v |-> "rep", x |-> "ENDING"]
                      /\ pc' = [pc EXCEPT !["w"] = "R_end2"]
-                     /\ UNCHANGED << next, afterStop >>
-          /\ UNCHANGED << rs, runflag, fin, flag, res, startsOK, segments, 
-                          lateStop, staleStart, wrote, ctimedout, wtimedout, i, 
-                          ok >>
+                     /\ UNCHANGED afterStop
+          /\ UNCHANGED << rs, runflag, fin, flag, next, cur, endsOK, res, 
+                          startsOK, segments, lateStop, staleStart, lateEnd, 
+                          staleEnd, wrote, ctimedout, wtimedout, i, ok >>
 
 H1a == /\ pc["w"] = "H1a"
        /\ last' = [t |-> "w", k |-> "R", v |-> "rs", x |-> rs]
        /\ IF rs = "STARTING"
              THEN /\ pc' = [pc EXCEPT !["w"] = "H3"]
              ELSE /\ pc' = [pc EXCEPT !["w"] = "H1b"]
-       /\ UNCHANGED << rs, rep, runflag, fin, flag, next, res, startsOK, 
-                       segments, lateStop, staleStart, wrote, afterStop, 
-                       ctimedout, wtimedout, i, ok >>
+       /\ UNCHANGED << rs, rep, runflag, fin, flag, next, cur, endsOK, res, 
+                       startsOK, segments, lateStop, staleStart, lateEnd, 
+                       staleEnd, wrote, afterStop, ctimedout, wtimedout, i, ok >>
 
 H1b == /\ pc["w"] = "H1b"
        /\ last' = [t |-> "w", k |-> "R", v |-> "rs", x |-> rs]
        /\ IF rs # "STARTED"
              THEN /\ pc' = [pc EXCEPT !["w"] = "R_fault"]
              ELSE /\ pc' = [pc EXCEPT !["w"] = "H3"]
-       /\ UNCHANGED << rs, rep, runflag, fin, flag, next, res, startsOK, 
-                       segments, lateStop, staleStart, wrote, afterStop, 
-                       ctimedout, wtimedout, i, ok >>
+       /\ UNCHANGED << rs, rep, runflag, fin, flag, next, cur, endsOK, res, 
+                       startsOK, segments, lateStop, staleStart, lateEnd, 
+                       staleEnd, wrote, afterStop, ctimedout, wtimedout, i, ok >>
 
 H3 == /\ pc["w"] = "H3"
       /\ rs' = "STOPPING"
       /\ wtimedout' = FALSE
       /\ last' = [t |-> "w", k |-> "W", v |-> "rs", x |-> "STOPPING"]
       /\ pc' = [pc EXCEPT !["w"] = "H4f"]
-      /\ UNCHANGED << rep, runflag, fin, flag, next, res, startsOK, segments, 
-                      lateStop, staleStart, wrote, afterStop, ctimedout, i, ok >>
+      /\ UNCHANGED << rep, runflag, fin, flag, next, cur, endsOK, res, 
+                      startsOK, segments, lateStop, staleStart, lateEnd, 
+                      staleEnd, wrote, afterStop, ctimedout, i, ok >>
 
 H4f == /\ pc["w"] = "H4f"
        /\ last' = [t |-> "w", k |-> "R", v |-> "fin", x |-> IF fin THEN "True" ELSE "False"]
        /\ IF wtimedout
              THEN /\ pc' = [pc EXCEPT !["w"] = "R1a"]
              ELSE /\ pc' = [pc EXCEPT !["w"] = "H4s"]
-       /\ UNCHANGED << rs, rep, runflag, fin, flag, next, res, startsOK, 
-                       segments, lateStop, staleStart, wrote, afterStop, 
-                       ctimedout, wtimedout, i, ok >>
+       /\ UNCHANGED << rs, rep, runflag, fin, flag, next, cur, endsOK, res, 
+                       startsOK, segments, lateStop, staleStart, lateEnd, 
+                       staleEnd, wrote, afterStop, ctimedout, wtimedout, i, ok >>
 
 H4s == /\ pc["w"] = "H4s"
        /\ \/ /\ last' = [t |-> "w", k |-> "sleep", v |-> "-", x |-> "-"]
@@ -391,32 +430,36 @@ H4s == /\ pc["w"] = "H4s"
              /\ ctimedout' = TRUE
              /\ last' = [t |-> "w", k |-> "sleep", v |-> "timeout", x |-> "-"]
        /\ pc' = [pc EXCEPT !["w"] = "H4f"]
-       /\ UNCHANGED << rs, rep, runflag, fin, flag, next, res, startsOK, 
-                       segments, lateStop, staleStart, wrote, afterStop, i, ok >>
+       /\ UNCHANGED << rs, rep, runflag, fin, flag, next, cur, endsOK, res, 
+                       startsOK, segments, lateStop, staleStart, lateEnd, 
+                       staleEnd, wrote, afterStop, i, ok >>
 
 R_fault == /\ pc["w"] = "R_fault"
            /\ rs' = "STOPPING"
            /\ last' = [t |-> "w", k |-> "W", v |-> "rs", x |-> "STOPPING"]
            /\ pc' = [pc EXCEPT !["w"] = "R1a"]
-           /\ UNCHANGED << rep, runflag, fin, flag, next, res, startsOK, 
-                           segments, lateStop, staleStart, wrote, afterStop, 
-                           ctimedout, wtimedout, i, ok >>
+           /\ UNCHANGED << rep, runflag, fin, flag, next, cur, endsOK, res, 
+                           startsOK, segments, lateStop, staleStart, lateEnd, 
+                           staleEnd, wrote, afterStop, ctimedout, wtimedout, i, 
+                           ok >>
 
 R_end2 == /\ pc["w"] = "R_end2"
           /\ rs' = "STOPPING"
           /\ last' = [t |-> "w", k |-> "W", v |-> "rs", x |-> "STOPPING"]
           /\ pc' = [pc EXCEPT !["w"] = "W7"]
-          /\ UNCHANGED << rep, runflag, fin, flag, next, res, startsOK, 
-                          segments, lateStop, staleStart, wrote, afterStop, 
-                          ctimedout, wtimedout, i, ok >>
+          /\ UNCHANGED << rep, runflag, fin, flag, next, cur, endsOK, res, 
+                          startsOK, segments, lateStop, staleStart, lateEnd, 
+                          staleEnd, wrote, afterStop, ctimedout, wtimedout, i, 
+                          ok >>
 
 W7 == /\ pc["w"] = "W7"
       /\ rs' = "STOPPED"
       /\ afterStop' = -1
       /\ last' = [t |-> "w", k |-> "W", v |-> "rs", x |-> "STOPPED"]
       /\ pc' = [pc EXCEPT !["w"] = "W8"]
-      /\ UNCHANGED << rep, runflag, fin, flag, next, res, startsOK, segments, 
-                      lateStop, staleStart, wrote, ctimedout, wtimedout, i, ok >>
+      /\ UNCHANGED << rep, runflag, fin, flag, next, cur, endsOK, res, 
+                      startsOK, segments, lateStop, staleStart, lateEnd, 
+                      staleEnd, wrote, ctimedout, wtimedout, i, ok >>
 
 W8 == /\ pc["w"] = "W8"
       /\ last' = [t |-> "w", k |-> "R", v |-> "rep", x |-> rep]
@@ -425,25 +468,25 @@ W8 == /\ pc["w"] = "W8"
                        THEN /\ pc' = [pc EXCEPT !["w"] = "W_loop"]
                        ELSE /\ pc' = [pc EXCEPT !["w"] = "W_clear"]
             ELSE /\ pc' = [pc EXCEPT !["w"] = "W9a"]
-      /\ UNCHANGED << rs, rep, runflag, fin, flag, next, res, startsOK, 
-                      segments, lateStop, staleStart, wrote, afterStop, 
-                      ctimedout, wtimedout, i, ok >>
+      /\ UNCHANGED << rs, rep, runflag, fin, flag, next, cur, endsOK, res, 
+                      startsOK, segments, lateStop, staleStart, lateEnd, 
+                      staleEnd, wrote, afterStop, ctimedout, wtimedout, i, ok >>
 
 W9a == /\ pc["w"] = "W9a"
        /\ rep' = "ENDED"
        /\ last' = [t |-> "w", k |-> "W", v |-> "rep", x |-> "ENDED"]
        /\ pc' = [pc EXCEPT !["w"] = "W9b"]
-       /\ UNCHANGED << rs, runflag, fin, flag, next, res, startsOK, segments, 
-                       lateStop, staleStart, wrote, afterStop, ctimedout, 
-                       wtimedout, i, ok >>
+       /\ UNCHANGED << rs, runflag, fin, flag, next, cur, endsOK, res, 
+                       startsOK, segments, lateStop, staleStart, lateEnd, 
+                       staleEnd, wrote, afterStop, ctimedout, wtimedout, i, ok >>
 
 W9b == /\ pc["w"] = "W9b"
        /\ rs' = "ENDED"
        /\ last' = [t |-> "w", k |-> "W", v |-> "rs", x |-> "ENDED"]
        /\ pc' = [pc EXCEPT !["w"] = "W9c"]
-       /\ UNCHANGED << rep, runflag, fin, flag, next, res, startsOK, segments, 
-                       lateStop, staleStart, wrote, afterStop, ctimedout, 
-                       wtimedout, i, ok >>
+       /\ UNCHANGED << rep, runflag, fin, flag, next, cur, endsOK, res, 
+                       startsOK, segments, lateStop, staleStart, lateEnd, 
+                       staleEnd, wrote, afterStop, ctimedout, wtimedout, i, ok >>
 
 W9c == /\ pc["w"] = "W9c"
        /\ fin' = TRUE
@@ -451,33 +494,36 @@ W9c == /\ pc["w"] = "W9c"
        /\ IF "clear_after_wait" \in Fixes
              THEN /\ pc' = [pc EXCEPT !["w"] = "W_loop"]
              ELSE /\ pc' = [pc EXCEPT !["w"] = "W_clear"]
-       /\ UNCHANGED << rs, rep, runflag, flag, next, res, startsOK, segments, 
-                       lateStop, staleStart, wrote, afterStop, ctimedout, 
-                       wtimedout, i, ok >>
+       /\ UNCHANGED << rs, rep, runflag, flag, next, cur, endsOK, res, 
+                       startsOK, segments, lateStop, staleStart, lateEnd, 
+                       staleEnd, wrote, afterStop, ctimedout, wtimedout, i, ok >>
 
 W_clear == /\ pc["w"] = "W_clear"
            /\ flag' = FALSE
            /\ last' = [t |-> "w", k |-> "ev", v |-> "clear", x |-> "-"]
            /\ pc' = [pc EXCEPT !["w"] = "W_loop"]
-           /\ UNCHANGED << rs, rep, runflag, fin, next, res, startsOK, 
-                           segments, lateStop, staleStart, wrote, afterStop, 
-                           ctimedout, wtimedout, i, ok >>
+           /\ UNCHANGED << rs, rep, runflag, fin, next, cur, endsOK, res, 
+                           startsOK, segments, lateStop, staleStart, lateEnd, 
+                           staleEnd, wrote, afterStop, ctimedout, wtimedout, i, 
+                           ok >>
 
 W_loop == /\ pc["w"] = "W_loop"
           /\ last' = [t |-> "w", k |-> "R", v |-> "fin", x |-> IF fin THEN "True" ELSE "False"]
           /\ IF fin
                 THEN /\ pc' = [pc EXCEPT !["w"] = "Done"]
                 ELSE /\ pc' = [pc EXCEPT !["w"] = "W_wait"]
-          /\ UNCHANGED << rs, rep, runflag, fin, flag, next, res, startsOK, 
-                          segments, lateStop, staleStart, wrote, afterStop, 
-                          ctimedout, wtimedout, i, ok >>
+          /\ UNCHANGED << rs, rep, runflag, fin, flag, next, cur, endsOK, res, 
+                          startsOK, segments, lateStop, staleStart, lateEnd, 
+                          staleEnd, wrote, afterStop, ctimedout, wtimedout, i, 
+                          ok >>
 
 W_wait == /\ pc["w"] = "W_wait"
           /\ last' = [t |-> "w", k |-> "ev", v |-> "wait", x |-> "-"]
           /\ pc' = [pc EXCEPT !["w"] = "W_woke"]
-          /\ UNCHANGED << rs, rep, runflag, fin, flag, next, res, startsOK, 
-                          segments, lateStop, staleStart, wrote, afterStop, 
-                          ctimedout, wtimedout, i, ok >>
+          /\ UNCHANGED << rs, rep, runflag, fin, flag, next, cur, endsOK, res, 
+                          startsOK, segments, lateStop, staleStart, lateEnd, 
+                          staleEnd, wrote, afterStop, ctimedout, wtimedout, i, 
+                          ok >>
 
 worker == W_woke \/ W_clear0 \/ W2 \/ W3 \/ W5 \/ R0 \/ R1a \/ R1b
              \/ R_body \/ H1a \/ H1b \/ H3 \/ H4f \/ H4s \/ R_fault
@@ -490,10 +536,12 @@ C_next == /\ pc["c"] = "C_next"
           /\ last' = [t |-> "c", k |-> "cmd", v |-> (Script[i]), x |-> "-"]
           /\ IF Script[i] = "start"
                 THEN /\ pc' = [pc EXCEPT !["c"] = "S1a"]
-                ELSE /\ pc' = [pc EXCEPT !["c"] = "P1a"]
-          /\ UNCHANGED << rs, rep, runflag, fin, flag, next, res, startsOK, 
-                          segments, lateStop, staleStart, afterStop, ctimedout, 
-                          wtimedout, i >>
+                ELSE /\ IF Script[i] = "stop"
+                           THEN /\ pc' = [pc EXCEPT !["c"] = "P1a"]
+                           ELSE /\ pc' = [pc EXCEPT !["c"] = "E1"]
+          /\ UNCHANGED << rs, rep, runflag, fin, flag, next, cur, endsOK, res, 
+                          startsOK, segments, lateStop, staleStart, lateEnd, 
+                          staleEnd, afterStop, ctimedout, wtimedout, i >>
 
 S1a == /\ pc["c"] = "S1a"
        /\ last' = [t |-> "c", k |-> "R", v |-> "rs", x |-> rs]
@@ -502,9 +550,9 @@ S1a == /\ pc["c"] = "S1a"
                   /\ pc' = [pc EXCEPT !["c"] = "C_ret"]
              ELSE /\ pc' = [pc EXCEPT !["c"] = "S1b"]
                   /\ ok' = ok
-       /\ UNCHANGED << rs, rep, runflag, fin, flag, next, res, startsOK, 
-                       segments, lateStop, staleStart, wrote, afterStop, 
-                       ctimedout, wtimedout, i >>
+       /\ UNCHANGED << rs, rep, runflag, fin, flag, next, cur, endsOK, res, 
+                       startsOK, segments, lateStop, staleStart, lateEnd, 
+                       staleEnd, wrote, afterStop, ctimedout, wtimedout, i >>
 
 S1b == /\ pc["c"] = "S1b"
        /\ last' = [t |-> "c", k |-> "R", v |-> "rs", x |-> rs]
@@ -513,9 +561,9 @@ S1b == /\ pc["c"] = "S1b"
                   /\ pc' = [pc EXCEPT !["c"] = "C_ret"]
              ELSE /\ pc' = [pc EXCEPT !["c"] = "S2"]
                   /\ ok' = ok
-       /\ UNCHANGED << rs, rep, runflag, fin, flag, next, res, startsOK, 
-                       segments, lateStop, staleStart, wrote, afterStop, 
-                       ctimedout, wtimedout, i >>
+       /\ UNCHANGED << rs, rep, runflag, fin, flag, next, cur, endsOK, res, 
+                       startsOK, segments, lateStop, staleStart, lateEnd, 
+                       staleEnd, wrote, afterStop, ctimedout, wtimedout, i >>
 
 S2 == /\ pc["c"] = "S2"
       /\ last' = [t |-> "c", k |-> "R", v |-> "rs", x |-> rs]
@@ -526,9 +574,9 @@ S2 == /\ pc["c"] = "S2"
                        THEN /\ pc' = [pc EXCEPT !["c"] = "S2x"]
                        ELSE /\ pc' = [pc EXCEPT !["c"] = "S3a"]
                  /\ ok' = ok
-      /\ UNCHANGED << rs, rep, runflag, fin, flag, next, res, startsOK, 
-                      segments, lateStop, staleStart, wrote, afterStop, 
-                      ctimedout, wtimedout, i >>
+      /\ UNCHANGED << rs, rep, runflag, fin, flag, next, cur, endsOK, res, 
+                      startsOK, segments, lateStop, staleStart, lateEnd, 
+                      staleEnd, wrote, afterStop, ctimedout, wtimedout, i >>
 
 S2x == /\ pc["c"] = "S2x"
        /\ last' = [t |-> "c", k |-> "R", v |-> "rs", x |-> rs]
@@ -537,18 +585,18 @@ S2x == /\ pc["c"] = "S2x"
                   /\ pc' = [pc EXCEPT !["c"] = "C_ret"]
              ELSE /\ pc' = [pc EXCEPT !["c"] = "S3a"]
                   /\ ok' = ok
-       /\ UNCHANGED << rs, rep, runflag, fin, flag, next, res, startsOK, 
-                       segments, lateStop, staleStart, wrote, afterStop, 
-                       ctimedout, wtimedout, i >>
+       /\ UNCHANGED << rs, rep, runflag, fin, flag, next, cur, endsOK, res, 
+                       startsOK, segments, lateStop, staleStart, lateEnd, 
+                       staleEnd, wrote, afterStop, ctimedout, wtimedout, i >>
 
 S3a == /\ pc["c"] = "S3a"
        /\ last' = [t |-> "c", k |-> "R", v |-> "rep", x |-> rep]
        /\ IF rep = "INITIALIZED"
              THEN /\ pc' = [pc EXCEPT !["c"] = "S5"]
              ELSE /\ pc' = [pc EXCEPT !["c"] = "S3b"]
-       /\ UNCHANGED << rs, rep, runflag, fin, flag, next, res, startsOK, 
-                       segments, lateStop, staleStart, wrote, afterStop, 
-                       ctimedout, wtimedout, i, ok >>
+       /\ UNCHANGED << rs, rep, runflag, fin, flag, next, cur, endsOK, res, 
+                       startsOK, segments, lateStop, staleStart, lateEnd, 
+                       staleEnd, wrote, afterStop, ctimedout, wtimedout, i, ok >>
 
 S3b == /\ pc["c"] = "S3b"
        /\ last' = [t |-> "c", k |-> "R", v |-> "rep", x |-> rep]
@@ -557,9 +605,9 @@ S3b == /\ pc["c"] = "S3b"
                   /\ pc' = [pc EXCEPT !["c"] = "C_ret"]
              ELSE /\ pc' = [pc EXCEPT !["c"] = "S5"]
                   /\ ok' = ok
-       /\ UNCHANGED << rs, rep, runflag, fin, flag, next, res, startsOK, 
-                       segments, lateStop, staleStart, wrote, afterStop, 
-                       ctimedout, wtimedout, i >>
+       /\ UNCHANGED << rs, rep, runflag, fin, flag, next, cur, endsOK, res, 
+                       startsOK, segments, lateStop, staleStart, lateEnd, 
+                       staleEnd, wrote, afterStop, ctimedout, wtimedout, i >>
 
 S5 == /\ pc["c"] = "S5"
       /\ staleStart' = (staleStart \/ PostRun(pc["w"]) \/ (InRunLoop(pc["w"]) /\ rs = "STOPPING"))
@@ -568,42 +616,44 @@ S5 == /\ pc["c"] = "S5"
       /\ afterStop' = -1
       /\ last' = [t |-> "c", k |-> "W", v |-> "rs", x |-> "STARTING"]
       /\ pc' = [pc EXCEPT !["c"] = "S6a"]
-      /\ UNCHANGED << rep, runflag, fin, flag, next, res, startsOK, segments, 
-                      lateStop, ctimedout, wtimedout, i, ok >>
+      /\ UNCHANGED << rep, runflag, fin, flag, next, cur, endsOK, res, 
+                      startsOK, segments, lateStop, lateEnd, staleEnd, 
+                      ctimedout, wtimedout, i, ok >>
 
 S6a == /\ pc["c"] = "S6a"
        /\ last' = [t |-> "c", k |-> "R", v |-> "rep", x |-> rep]
        /\ IF rep # "INITIALIZED"
              THEN /\ pc' = [pc EXCEPT !["c"] = "S8"]
              ELSE /\ pc' = [pc EXCEPT !["c"] = "S6b"]
-       /\ UNCHANGED << rs, rep, runflag, fin, flag, next, res, startsOK, 
-                       segments, lateStop, staleStart, wrote, afterStop, 
-                       ctimedout, wtimedout, i, ok >>
+       /\ UNCHANGED << rs, rep, runflag, fin, flag, next, cur, endsOK, res, 
+                       startsOK, segments, lateStop, staleStart, lateEnd, 
+                       staleEnd, wrote, afterStop, ctimedout, wtimedout, i, ok >>
 
 S6b == /\ pc["c"] = "S6b"
        /\ rep' = "STARTED"
        /\ last' = [t |-> "c", k |-> "W", v |-> "rep", x |-> "STARTED"]
        /\ pc' = [pc EXCEPT !["c"] = "S8"]
-       /\ UNCHANGED << rs, runflag, fin, flag, next, res, startsOK, segments, 
-                       lateStop, staleStart, wrote, afterStop, ctimedout, 
-                       wtimedout, i, ok >>
+       /\ UNCHANGED << rs, runflag, fin, flag, next, cur, endsOK, res, 
+                       startsOK, segments, lateStop, staleStart, lateEnd, 
+                       staleEnd, wrote, afterStop, ctimedout, wtimedout, i, ok >>
 
 S8 == /\ pc["c"] = "S8"
       /\ flag' = TRUE
       /\ ctimedout' = FALSE
       /\ last' = [t |-> "c", k |-> "ev", v |-> "set", x |-> "-"]
       /\ pc' = [pc EXCEPT !["c"] = "S9r"]
-      /\ UNCHANGED << rs, rep, runflag, fin, next, res, startsOK, segments, 
-                      lateStop, staleStart, wrote, afterStop, wtimedout, i, ok >>
+      /\ UNCHANGED << rs, rep, runflag, fin, next, cur, endsOK, res, startsOK, 
+                      segments, lateStop, staleStart, lateEnd, staleEnd, wrote, 
+                      afterStop, wtimedout, i, ok >>
 
 S9r == /\ pc["c"] = "S9r"
        /\ last' = [t |-> "c", k |-> "R", v |-> "runflag", x |-> IF runflag THEN "True" ELSE "False"]
        /\ IF runflag \/ ctimedout
              THEN /\ pc' = [pc EXCEPT !["c"] = "S10"]
              ELSE /\ pc' = [pc EXCEPT !["c"] = "S9s"]
-       /\ UNCHANGED << rs, rep, runflag, fin, flag, next, res, startsOK, 
-                       segments, lateStop, staleStart, wrote, afterStop, 
-                       ctimedout, wtimedout, i, ok >>
+       /\ UNCHANGED << rs, rep, runflag, fin, flag, next, cur, endsOK, res, 
+                       startsOK, segments, lateStop, staleStart, lateEnd, 
+                       staleEnd, wrote, afterStop, ctimedout, wtimedout, i, ok >>
 
 S9s == /\ pc["c"] = "S9s"
        /\ \/ /\ last' = [t |-> "c", k |-> "sleep", v |-> "-", x |-> "-"]
@@ -613,26 +663,27 @@ S9s == /\ pc["c"] = "S9s"
              /\ wtimedout' = TRUE
              /\ last' = [t |-> "c", k |-> "sleep", v |-> "timeout", x |-> "-"]
        /\ pc' = [pc EXCEPT !["c"] = "S9r"]
-       /\ UNCHANGED << rs, rep, runflag, fin, flag, next, res, startsOK, 
-                       segments, lateStop, staleStart, wrote, afterStop, i, ok >>
+       /\ UNCHANGED << rs, rep, runflag, fin, flag, next, cur, endsOK, res, 
+                       startsOK, segments, lateStop, staleStart, lateEnd, 
+                       staleEnd, wrote, afterStop, i, ok >>
 
 S10 == /\ pc["c"] = "S10"
        /\ runflag' = FALSE
        /\ startsOK' = startsOK + 1
        /\ last' = [t |-> "c", k |-> "W", v |-> "runflag", x |-> IF FALSE THEN "True" ELSE "False"]
        /\ pc' = [pc EXCEPT !["c"] = "C_ret"]
-       /\ UNCHANGED << rs, rep, fin, flag, next, res, segments, lateStop, 
-                       staleStart, wrote, afterStop, ctimedout, wtimedout, i, 
-                       ok >>
+       /\ UNCHANGED << rs, rep, fin, flag, next, cur, endsOK, res, segments, 
+                       lateStop, staleStart, lateEnd, staleEnd, wrote, 
+                       afterStop, ctimedout, wtimedout, i, ok >>
 
 P1a == /\ pc["c"] = "P1a"
        /\ last' = [t |-> "c", k |-> "R", v |-> "rs", x |-> rs]
        /\ IF rs = "STARTING"
              THEN /\ pc' = [pc EXCEPT !["c"] = "P3"]
              ELSE /\ pc' = [pc EXCEPT !["c"] = "P1b"]
-       /\ UNCHANGED << rs, rep, runflag, fin, flag, next, res, startsOK, 
-                       segments, lateStop, staleStart, wrote, afterStop, 
-                       ctimedout, wtimedout, i, ok >>
+       /\ UNCHANGED << rs, rep, runflag, fin, flag, next, cur, endsOK, res, 
+                       startsOK, segments, lateStop, staleStart, lateEnd, 
+                       staleEnd, wrote, afterStop, ctimedout, wtimedout, i, ok >>
 
 P1b == /\ pc["c"] = "P1b"
        /\ last' = [t |-> "c", k |-> "R", v |-> "rs", x |-> rs]
@@ -641,9 +692,9 @@ P1b == /\ pc["c"] = "P1b"
                   /\ pc' = [pc EXCEPT !["c"] = "C_ret"]
              ELSE /\ pc' = [pc EXCEPT !["c"] = "P3"]
                   /\ ok' = ok
-       /\ UNCHANGED << rs, rep, runflag, fin, flag, next, res, startsOK, 
-                       segments, lateStop, staleStart, wrote, afterStop, 
-                       ctimedout, wtimedout, i >>
+       /\ UNCHANGED << rs, rep, runflag, fin, flag, next, cur, endsOK, res, 
+                       startsOK, segments, lateStop, staleStart, lateEnd, 
+                       staleEnd, wrote, afterStop, ctimedout, wtimedout, i >>
 
 P3 == /\ pc["c"] = "P3"
       /\ lateStop' = (lateStop \/ ~InRunLoop(pc["w"]) \/ pc["w"] = "R_end2")
@@ -657,8 +708,9 @@ P3 == /\ pc["c"] = "P3"
                        THEN /\ pc' = [pc EXCEPT !["c"] = "P5a"]
                        ELSE /\ pc' = [pc EXCEPT !["c"] = "C_ret"]
             ELSE /\ pc' = [pc EXCEPT !["c"] = "P4f"]
-      /\ UNCHANGED << rep, runflag, fin, flag, next, res, startsOK, segments, 
-                      staleStart, wtimedout, i, ok >>
+      /\ UNCHANGED << rep, runflag, fin, flag, next, cur, endsOK, res, 
+                      startsOK, segments, staleStart, lateEnd, staleEnd, 
+                      wtimedout, i, ok >>
 
 P4f == /\ pc["c"] = "P4f"
        /\ last' = [t |-> "c", k |-> "R", v |-> "fin", x |-> IF fin THEN "True" ELSE "False"]
@@ -667,9 +719,9 @@ P4f == /\ pc["c"] = "P4f"
                         THEN /\ pc' = [pc EXCEPT !["c"] = "P5a"]
                         ELSE /\ pc' = [pc EXCEPT !["c"] = "C_ret"]
              ELSE /\ pc' = [pc EXCEPT !["c"] = "P4s"]
-       /\ UNCHANGED << rs, rep, runflag, fin, flag, next, res, startsOK, 
-                       segments, lateStop, staleStart, wrote, afterStop, 
-                       ctimedout, wtimedout, i, ok >>
+       /\ UNCHANGED << rs, rep, runflag, fin, flag, next, cur, endsOK, res, 
+                       startsOK, segments, lateStop, staleStart, lateEnd, 
+                       staleEnd, wrote, afterStop, ctimedout, wtimedout, i, ok >>
 
 P4s == /\ pc["c"] = "P4s"
        /\ \/ /\ last' = [t |-> "c", k |-> "sleep", v |-> "-", x |-> "-"]
@@ -688,42 +740,86 @@ P4s == /\ pc["c"] = "P4s"
                               THEN /\ pc' = [pc EXCEPT !["c"] = "P5a"]
                               ELSE /\ pc' = [pc EXCEPT !["c"] = "C_ret"]
                    ELSE /\ pc' = [pc EXCEPT !["c"] = "P4f"]
-       /\ UNCHANGED << rs, rep, runflag, fin, flag, next, res, startsOK, 
-                       segments, lateStop, staleStart, wrote, afterStop, i, ok >>
+       /\ UNCHANGED << rs, rep, runflag, fin, flag, next, cur, endsOK, res, 
+                       startsOK, segments, lateStop, staleStart, lateEnd, 
+                       staleEnd, wrote, afterStop, i, ok >>
 
 P5a == /\ pc["c"] = "P5a"
        /\ last' = [t |-> "c", k |-> "R", v |-> "rs", x |-> rs]
        /\ IF rs # "STOPPING"
              THEN /\ pc' = [pc EXCEPT !["c"] = "C_ret"]
              ELSE /\ pc' = [pc EXCEPT !["c"] = "P5b"]
-       /\ UNCHANGED << rs, rep, runflag, fin, flag, next, res, startsOK, 
-                       segments, lateStop, staleStart, wrote, afterStop, 
-                       ctimedout, wtimedout, i, ok >>
+       /\ UNCHANGED << rs, rep, runflag, fin, flag, next, cur, endsOK, res, 
+                       startsOK, segments, lateStop, staleStart, lateEnd, 
+                       staleEnd, wrote, afterStop, ctimedout, wtimedout, i, ok >>
 
 P5b == /\ pc["c"] = "P5b"
        /\ last' = [t |-> "c", k |-> "R", v |-> "rep", x |-> rep]
        /\ IF rep = "ENDED"
              THEN /\ pc' = [pc EXCEPT !["c"] = "P5c"]
              ELSE /\ pc' = [pc EXCEPT !["c"] = "P5d"]
-       /\ UNCHANGED << rs, rep, runflag, fin, flag, next, res, startsOK, 
-                       segments, lateStop, staleStart, wrote, afterStop, 
-                       ctimedout, wtimedout, i, ok >>
+       /\ UNCHANGED << rs, rep, runflag, fin, flag, next, cur, endsOK, res, 
+                       startsOK, segments, lateStop, staleStart, lateEnd, 
+                       staleEnd, wrote, afterStop, ctimedout, wtimedout, i, ok >>
 
 P5c == /\ pc["c"] = "P5c"
        /\ rs' = "ENDED"
        /\ last' = [t |-> "c", k |-> "W", v |-> "rs", x |-> "ENDED"]
        /\ pc' = [pc EXCEPT !["c"] = "C_ret"]
-       /\ UNCHANGED << rep, runflag, fin, flag, next, res, startsOK, segments, 
-                       lateStop, staleStart, wrote, afterStop, ctimedout, 
-                       wtimedout, i, ok >>
+       /\ UNCHANGED << rep, runflag, fin, flag, next, cur, endsOK, res, 
+                       startsOK, segments, lateStop, staleStart, lateEnd, 
+                       staleEnd, wrote, afterStop, ctimedout, wtimedout, i, ok >>
 
 P5d == /\ pc["c"] = "P5d"
        /\ rs' = "STOPPED"
        /\ last' = [t |-> "c", k |-> "W", v |-> "rs", x |-> "STOPPED"]
-       /\ pc' = [pc EXCEPT !["c"] = "C_ret"]
-       /\ UNCHANGED << rep, runflag, fin, flag, next, res, startsOK, segments, 
-                       lateStop, staleStart, wrote, afterStop, ctimedout, 
-                       wtimedout, i, ok >>
+       /\ pc' = [pc EXCEPT !["c"] = "E1"]
+       /\ UNCHANGED << rep, runflag, fin, flag, next, cur, endsOK, res, 
+                       startsOK, segments, lateStop, staleStart, lateEnd, 
+                       staleEnd, wrote, afterStop, ctimedout, wtimedout, i, ok >>
+
+E1 == /\ pc["c"] = "E1"
+      /\ last' = [t |-> "c", k |-> "R", v |-> "rs", x |-> rs]
+      /\ IF rs = "NOT_INITIALIZED"
+            THEN /\ ok' = FALSE
+                 /\ pc' = [pc EXCEPT !["c"] = "C_ret"]
+            ELSE /\ pc' = [pc EXCEPT !["c"] = "E2"]
+                 /\ ok' = ok
+      /\ UNCHANGED << rs, rep, runflag, fin, flag, next, cur, endsOK, res, 
+                      startsOK, segments, lateStop, staleStart, lateEnd, 
+                      staleEnd, wrote, afterStop, ctimedout, wtimedout, i >>
+
+E2 == /\ pc["c"] = "E2"
+      /\ last' = [t |-> "c", k |-> "R", v |-> "rep", x |-> rep]
+      /\ IF rep = "ENDED"
+            THEN /\ ok' = FALSE
+                 /\ pc' = [pc EXCEPT !["c"] = "C_ret"]
+            ELSE /\ pc' = [pc EXCEPT !["c"] = "E3"]
+                 /\ ok' = ok
+      /\ UNCHANGED << rs, rep, runflag, fin, flag, next, cur, endsOK, res, 
+                      startsOK, segments, lateStop, staleStart, lateEnd, 
+                      staleEnd, wrote, afterStop, ctimedout, wtimedout, i >>
+
+E3 == /\ pc["c"] = "E3"
+      /\ lateEnd' = (lateEnd \/ rep = "ENDED")
+      /\ rep' = "ENDING"
+      /\ wrote' = TRUE
+      /\ last' = [t |-> "c", k |-> "W", v |-> "rep", x |-> "ENDING"]
+      /\ pc' = [pc EXCEPT !["c"] = "E4"]
+      /\ UNCHANGED << rs, runflag, fin, flag, next, cur, endsOK, res, startsOK, 
+                      segments, lateStop, staleStart, staleEnd, afterStop, 
+                      ctimedout, wtimedout, i, ok >>
+
+E4 == /\ pc["c"] = "E4"
+      /\ staleEnd' = (staleEnd \/ pc["w"] = "W_clear")
+      /\ flag' = TRUE
+      /\ next' = NEvents + 1
+      /\ endsOK' = endsOK + 1
+      /\ last' = [t |-> "c", k |-> "ev", v |-> "set", x |-> "-"]
+      /\ pc' = [pc EXCEPT !["c"] = "C_ret"]
+      /\ UNCHANGED << rs, rep, runflag, fin, cur, res, startsOK, segments, 
+                      lateStop, staleStart, lateEnd, wrote, afterStop, 
+                      ctimedout, wtimedout, i, ok >>
 
 C_ret == /\ pc["c"] = "C_ret"
          /\ res' = Append(res, IF ok THEN "ok" ELSE "DSOLError")
@@ -732,13 +828,14 @@ C_ret == /\ pc["c"] = "C_ret"
          /\ IF i' > Len(Script)
                THEN /\ pc' = [pc EXCEPT !["c"] = "Done"]
                ELSE /\ pc' = [pc EXCEPT !["c"] = "C_next"]
-         /\ UNCHANGED << rs, rep, runflag, fin, flag, next, startsOK, segments, 
-                         lateStop, staleStart, wrote, afterStop, ctimedout, 
-                         wtimedout, ok >>
+         /\ UNCHANGED << rs, rep, runflag, fin, flag, next, cur, endsOK, 
+                         startsOK, segments, lateStop, staleStart, lateEnd, 
+                         staleEnd, wrote, afterStop, ctimedout, wtimedout, ok >>
 
 caller == C_next \/ S1a \/ S1b \/ S2 \/ S2x \/ S3a \/ S3b \/ S5 \/ S6a
              \/ S6b \/ S8 \/ S9r \/ S9s \/ S10 \/ P1a \/ P1b \/ P3 \/ P4f
-             \/ P4s \/ P5a \/ P5b \/ P5c \/ P5d \/ C_ret
+             \/ P4s \/ P5a \/ P5b \/ P5c \/ P5d \/ E1 \/ E2 \/ E3 \/ E4
+             \/ C_ret
 
 (* Allow infinite stuttering to prevent deadlock on termination. *)
 Terminating == /\ \A self \in ProcSet: pc[self] = "Done"
@@ -767,10 +864,13 @@ RefusedWroteNothing == (last.k = "ret" /\ last.x = "DSOLError") => ~wrote
 StopEffective == afterStop <= 1
 
 (* the same, with the two known race families of the pinned tree set aside (they are reported as known findings) *)
-Known == lateStop \/ staleStart
+Known == lateStop \/ staleStart \/ lateEnd \/ staleEnd
 NoStuckStateK == Known \/ NoStuckState
 NoLostStartK == Known \/ NoLostStart
 EndedFinalK == Known \/ EndedFinal
 ThreadGoneK == Known \/ ThreadGoneAfterEnd
 StopEffectiveK == Known \/ StopEffective
+(* an accepted end_replication() ends the replication *)
+EndRepEffective == (Quiescent /\ endsOK > 0) => (rep = "ENDED" /\ rs = "ENDED" /\ pc["w"] = "Done")
+EndRepEffectiveK == Known \/ EndRepEffective
 =============================================================================
